@@ -486,7 +486,9 @@ CfdpHdrGridPart(i, tier) ==
 
 \* names: "", "a", 2-octet UTF-8 character + ".txt", 100 octets, 255 octets
 \* (the last: a name that begins with the byte-order mark U+FEFF - it is a character of the name like any other)
-NameGrid == {<<>>, <<97>>, <<195, 164, 46, 116, 120, 116>>, Rep(100, 120), <<239, 187, 191, 110, 46, 116>>}
+\* (then: "e" + combining acute accent - valid, not NFC; a name ending in NUL; a name with format-string braces)
+NameGrid == {<<>>, <<97>>, <<195, 164, 46, 116, 120, 116>>, Rep(100, 120), <<239, 187, 191, 110, 46, 116>>,
+             <<101, 204, 129, 46, 116>>, <<97, 0>>, <<123, 125, 123, 48, 46, 120, 125>>}
 LenGrid == {0, 1, 2, 127, 128, 254, 255, 256}
 EntitySample == [v |-> <<1, 2>>]
 CtlvSample(cls) == CASE cls = "entity" -> [v |-> <<1, 2>>] [] cls = "flow" -> [v |-> <<9, 8, 7>>]
